@@ -1,7 +1,9 @@
 SPECIFICATION Spec
 CONSTANTS MaxLen = 2 MaxN = 4 Infinite = TRUE MaxOut = 4
+  Vals = "nat" Stops = FALSE MaxRuns = 1
   Alphabet <- AlphaC02
+  Must <- NoMust
   Pairs <- OnlyPairs
-CONSTRAINT Bounded
 INVARIANT Emitted
+CONSTRAINT Bounded
 CHECK_DEADLOCK FALSE
